@@ -252,7 +252,8 @@ fn p18m_consume_body<const N: usize>() {
     match inner(&m) {
         Some(p) => {
             assert!(r.is_ok());
-            assert!(p.n_consumed == N && p.n_check_stop == 1 && p.n_validate == 0 && p.n_mask == 0);
+            let vc_11 = p.n_consumed == N && p.n_check_stop == 1 && p.n_validate == 0 && p.n_mask == 0;
+            assert!(vc_11);
             let i: usize = kani::any();
             kani::assume(i < N);
             assert!(p.consumed[i] == toks[i]);
